@@ -1,7 +1,7 @@
 #!/venv/bin/python
 """Run our checks against the confirmed seeded changes under /verif/seeded/.
 
-    tools/run_seeded.py [name ...] [--checks=C01,C13] [--tier quick]
+    tools/run_seeded.py [name ...] [--checks=C01,C13] [--tier=quick] [--results=FILE]
 
 Each change is applied in a scratch worktree of /repo HEAD under /dev/shm
 (VERIF_REPO points the check at it), never in /repo itself.  Results are
@@ -31,7 +31,7 @@ def main():
     sdir = V / "seeded"
     if not names:
         names = sorted(p.name for p in sdir.iterdir() if (p / "patch.diff").exists())
-    resfile = sdir / "RESULTS.json"
+    resfile = Path(opts["results"]) if "results" in opts else sdir / "RESULTS.json"
     results = json.loads(resfile.read_text()) if resfile.exists() else {}
     for name in names:
         d = sdir / name
